@@ -139,7 +139,14 @@ def view_plan(engine, st, d):
 
                 yield st1, Plan("seq", n=p.n, get=get)
             else:
-                raise OutsideSubset("enumerate over an unordered collection")
+                # enumerate(<unordered>): the members in an arbitrary fixed order, numbered
+                for st2, p2 in _keys_as_list_plan(engine, st1, p):
+
+                    def get2(s, i, p2=p2):
+                        s2, u = p2.get(s, i)
+                        return s2, sv_tuple([sv_int(s0 + i), u])
+
+                    yield st2, Plan("seq", n=p2.n, get=get2)
     elif name == "dict_items":
         dct = d["dict"]
         x = S.fresh("key", V)
@@ -610,6 +617,26 @@ def _conds(engine, ifs, st):
                     yield st3, False
 
 
+def _elt_is_key(n, gen):
+    """the element expression is (a tuple of) the loop variable(s) themselves: handled by set inversion"""
+    def names(t):
+        if isinstance(t, ast.Name):
+            return [t.id]
+        if isinstance(t, (ast.Tuple, ast.List)):
+            out = []
+            for e in t.elts:
+                r = names(e)
+                if r is None:
+                    return None
+                out.extend(r)
+            return out
+        return None
+
+    tv = names(gen.target)
+    ev = names(n.elt) if hasattr(n, "elt") else None
+    return tv is not None and ev is not None and set(ev) <= set(tv)
+
+
 def _merged_conds_and_elt(engine, n, gen, st, kind):
     """Evaluate `if` conditions and the element expression(s) once, symbolically, merging paths.
     returns (cond z3 Bool, [elt SVs], raise_cond, st_with_facts)"""
@@ -693,7 +720,35 @@ def _mentions(f, ids):
     return False
 
 
+def _keys_as_list_plan(engine, st, plan, cond_fn=None):
+    """an unordered plan -> (state, ordered plan): enumerate the keys of its members in an arbitrary but fixed order
+    (the enumeration is a function of the member set, so evaluating the same expression twice gives the same list)"""
+    from .builtins_model import to_list
+
+    inv = _invert(plan.key, list(plan.vars))
+    if inv is None:
+        raise OutsideSubset("enumeration of an unordered collection whose element key is not invertible")
+    y, g, sub = inv
+    keyset = sv_set(z3.Lambda([y], And(g, z3.substitute(plan.mem, *sub))), TAny)
+    if len(plan.vars) == 1 and z3.is_app(plan.mem) and plan.mem.decl().kind() == z3.Z3_OP_SELECT and plan.mem.num_args() == 2 and plan.mem.arg(1).eq(plan.vars[0]) and plan.key.eq(plan.vars[0]):
+        keyset = sv_set(plan.mem.arg(0), TAny)  # membership in an explicit set term: enumerate that very set
+    for st1, l in to_list(engine, st, keyset):
+        ln, arr = l.t
+
+        def get(s, i, arr=arr, sub=sub, y=y):
+            inst = [(v, z3.substitute(t, (y, arr[i]))) for v, t in sub]
+            s = s.with_facts([z3.simplify(keyset.t[arr[i]])])
+            return _decode_with(engine, plan, s, inst)
+
+        yield st1, Plan("seq", n=ln, get=get)
+
+
 def _comp_symbolic(engine, n, gen, st, kind, plan):
+    if kind == "list" and plan.kind == "setlike" and not gen.ifs and not _elt_is_key(n, gen):
+        # [f(x) for x in <unordered>]: enumerate the members (arbitrary fixed order), then map f
+        for st1, p2 in _keys_as_list_plan(engine, st, plan):
+            yield from _comp_symbolic(engine, n, gen, st1, kind, p2)
+        return
     outer_env = st.env
     if plan.kind == "seq":
         i = S.fresh("ci", S.Int)
